@@ -24,6 +24,8 @@ import (
 	"time"
 
 	"github.com/mdlayher/corerad/internal/verifsim"
+	"github.com/mdlayher/ndp"
+	"golang.org/x/net/ipv6"
 )
 
 const (
@@ -49,6 +51,10 @@ type Round struct {
 	// Flip: somebody else (the operator, a re-created interface) changes the
 	// sysctl just before this dial attempt.
 	Flip bool `json:"flip,omitempty"`
+	// How: where inside dial() the outcome arises. dial:linknotready: nosuch
+	// (default) | down | noll; dial:opaque: listen (default) | filter | ctrl |
+	// join (the socket exists by then).
+	How string `json:"how,omitempty"`
 }
 
 // An SPlan is one simulated run of Dialer.Dial.
@@ -151,6 +157,78 @@ func (s *simState) SetIPv6Autoconf(_ string, v bool) error {
 
 type stubConn struct{ Conn }
 
+// simKernel is the operating system below the real Dialer.dial (see
+// /verif/sim/systemseams): one interface, eth0, whose state and whose socket
+// calls follow the Round being dialed.
+type simKernel struct {
+	lg    *verifsim.Log
+	st    *simState
+	gen   *int
+	round *Round
+}
+
+func (k *simKernel) InterfaceByName(name string) (*net.Interface, error) {
+	r := k.round
+	if r.Out == "dial:linknotready" && (r.How == "" || r.How == "nosuch") {
+		return nil, &net.OpError{Op: "route", Net: "ip+net", Source: nil, Addr: &net.IPAddr{IP: nil}, Err: errors.New("no such network interface")}
+	}
+	ifi := &net.Interface{Index: 2, Name: name, MTU: 1500, HardwareAddr: net.HardwareAddr{2, 0, 0, 0, 0, 1}, Flags: net.FlagUp | net.FlagBroadcast | net.FlagMulticast}
+	if r.Out == "dial:linknotready" && r.How == "down" {
+		ifi.Flags &^= net.FlagUp
+	}
+	return ifi, nil
+}
+
+func (k *simKernel) Addrs(*net.Interface) ([]net.Addr, error) {
+	if r := k.round; r.Out == "dial:linknotready" && r.How == "noll" {
+		return []net.Addr{&net.IPNet{IP: net.ParseIP("2001:db8::1"), Mask: net.CIDRMask(64, 128)}}, nil
+	}
+	return []net.Addr{&net.IPNet{IP: net.ParseIP("fe80::1"), Mask: net.CIDRMask(64, 128)}, &net.IPNet{IP: net.ParseIP("192.0.2.1"), Mask: net.CIDRMask(24, 32)}}, nil
+}
+
+func (k *simKernel) Listen(*net.Interface, ndp.Addr) (SimNDPConn, netip.Addr, error) {
+	r := k.round
+	if strings.HasPrefix(r.Out, "dial:") && (r.Out != "dial:opaque" || r.How == "" || r.How == "listen") {
+		return nil, netip.Addr{}, outcomeErr(r.Out)
+	}
+	*k.gen++
+	if r.Flip {
+		k.st.auto = !k.st.auto
+	}
+	oe := verifsim.Event{K: "open", Gen: *k.gen}
+	if k.st.auto {
+		oe.V = 1
+	}
+	k.lg.Add(oe)
+	return &simSock{k: k, gen: *k.gen, r: r}, netip.MustParseAddr("fe80::1"), nil
+}
+
+// simSock is the socket of one connection.
+type simSock struct {
+	Conn
+	k   *simKernel
+	gen int
+	r   *Round
+}
+
+func (c *simSock) fail(step string) error {
+	if c.r.Out == "dial:opaque" && c.r.How == step {
+		return errors.New("simulated opaque failure")
+	}
+	return nil
+}
+func (c *simSock) SetICMPFilter(*ipv6.ICMPFilter) error            { return c.fail("filter") }
+func (c *simSock) SetControlMessage(ipv6.ControlFlags, bool) error { return c.fail("ctrl") }
+func (c *simSock) JoinGroup(netip.Addr) error                      { return c.fail("join") }
+func (c *simSock) LeaveGroup(netip.Addr) error {
+	c.k.lg.Add(verifsim.Event{K: "leave", Gen: c.gen})
+	return nil
+}
+func (c *simSock) Close() error {
+	c.k.lg.Add(verifsim.Event{K: "close", Gen: c.gen})
+	return nil
+}
+
 func execSPlan(t *testing.T, p *SPlan, res *verifsim.Result, after func(ev []verifsim.Event)) []verifsim.Event {
 	var ev []verifsim.Event
 	synctest.Test(t, func(t *testing.T) {
@@ -179,7 +257,7 @@ func execSPlan(t *testing.T, p *SPlan, res *verifsim.Result, after func(ev []ver
 			return &Round{Out: "task:canceled", Dur: -1} // run until cancelled
 		}
 		var cur *Round
-		d.DialFunc = func() (*DialContext, error) {
+		stub := func() (*DialContext, error) {
 			r := next()
 			lg.Add(verifsim.Event{K: "dial.enter", V: int64(round)})
 			if r.DialDur > 0 {
@@ -235,6 +313,39 @@ func execSPlan(t *testing.T, p *SPlan, res *verifsim.Result, after func(ev []ver
 					return nil
 				},
 			}, nil
+		}
+		if SimRealDial {
+			// The real dial(), dialNDP(), lookupInterface(), checkInterface()
+			// and setAutoconf() against a simulated kernel.
+			k := &simKernel{lg: lg, st: st, gen: &gen}
+			SimKernel = k
+			defer func() { SimKernel = nil }()
+			realDial := d.DialFunc
+			d.DialFunc = func() (*DialContext, error) {
+				r := next()
+				lg.Add(verifsim.Event{K: "dial.enter", V: int64(round)})
+				if r.DialDur > 0 {
+					time.Sleep(time.Duration(r.DialDur))
+				}
+				k.round = r
+				st.round, st.phase = r, "dial"
+				dctx, err := realDial()
+				st.phase = "close"
+				if err != nil {
+					st.round = nil
+					x := verifsim.Event{K: "dial.exit", Err: r.Out}
+					if !strings.HasPrefix(r.Out, "dial:") {
+						x.Err = "setautoconf: " + err.Error()
+					}
+					lg.Add(x)
+					return nil, err
+				}
+				cur = r
+				lg.Add(verifsim.Event{K: "dial.exit", Gen: gen})
+				return dctx, nil
+			}
+		} else {
+			d.DialFunc = stub
 		}
 
 		doneC := make(chan struct{})
@@ -346,10 +457,23 @@ func enumDepth(tier string) int {
 	return 4
 }
 
+// howOf picks the place inside dial() where a dial outcome arises.
+func howOf(out string, k int) string {
+	switch out {
+	case "dial:linknotready":
+		return []string{"", "down", "noll"}[k%3]
+	case "dial:opaque":
+		return []string{"", "filter", "ctrl", "join"}[k%4]
+	}
+	return ""
+}
+
 func seqFromIndex(idx, depth int) []Round {
 	rs := make([]Round, depth)
+	k := idx
 	for i := 0; i < depth; i++ {
 		rs[i] = Round{Out: outcomes[idx%len(outcomes)], Dur: int64(100+37*i) * nsMs}
+		rs[i].How = howOf(rs[i].Out, k/7+i)
 		idx /= len(outcomes)
 	}
 	return rs
@@ -398,6 +522,7 @@ func c10Gen(rng *verifsim.RNG, idx int, tier string) any {
 				}
 			}
 			r := Round{Out: o, Dur: int64(rng.Dur(0, 3*time.Second))}
+			r.How = howOf(o, rng.Intn(12))
 			if rng.Bool(0.4) {
 				r.DialDur = int64(rng.Dur(time.Millisecond, 800*time.Millisecond))
 			}
